@@ -449,8 +449,13 @@ fn check_type_relation<T: TypeLookup>(
                 fields: fields2,
             },
         ) => {
-            // Names must match if both have names
+            // Names conflict when both are named and differ. For assignability a named
+            // pattern additionally requires the same name on the left: an unnamed partial
+            // also holds tuples of every other name.
             if name1.is_some() && name2.is_some() && name1 != name2 {
+                return false;
+            }
+            if mode == UnionMode::All && name2.is_some() && name1.is_none() {
                 return false;
             }
 
